@@ -125,6 +125,7 @@ fn steerable(rng: &mut Rng) -> Scenario {
         pred: Vec::new(),
         init_params: Some(init),
         print: if rng.chance(0.4) { Some(rng.pick(&[1i32, 2, 3, 5, 7, 50])) } else { None },
+        sweep: 0,
     }
 }
 
@@ -164,6 +165,7 @@ fn constructed_window(rng: &mut Rng, long: bool) -> Scenario {
         pred: Vec::new(),
         init_params: Some(vec![vec![w0]]),
         print: if rng.chance(0.2) { Some(rng.pick(&[1i32, 2, 7])) } else { None },
+        sweep: 0,
     }
 }
 
